@@ -419,9 +419,11 @@ def packet_cases(ctx, n_ego, payload_lens):
         dflt_hl = [10, 3, 255][ei % 3]
         dflt_lt = [60, 5, 600][ei % 3]
         st = [5, 12, 1, 0][ei % 4]
+        my_m = 1 if ei % 5 == 3 else 0          # M bit of the own GN address (manually configured address)
         my_mid = 0x0A0B0C0D0E01 + ei
         ll = CaptureLL()
         router = make_router(ll, local_mid=my_mid, default_hop_limit=dflt_hl, st=st, mib_kw=dict(
+            itsGnLocalGnAddr=gn_addr(my_mid, st, my_m),
             itsGnIsMobile=GnIsMobile.MOBILE if mobile else GnIsMobile.STATIONARY,
             itsGnDefaultPacketLifetime=dflt_lt, itsGnAreaForwardingAlgorithm=AreaForwardingAlgorithm.SIMPLE))
         VCLOCK.set_ms(1_700_000_000_000 + ei * 7919)
@@ -429,11 +431,16 @@ def packet_cases(ctx, n_ego, payload_lens):
         set_ego(router, ego["lat"], ego["lon"], pai=ego["pai"], s=ego["s"], h=ego["h"], tst=tst)
         btp = BTPRouter(router)
         btp.freeze_callbacks()
-        me = (0, st, my_mid)
+        me = (my_m, st, my_mid)
         ego_view = list(me) + [tst, ego["lat"], ego["lon"], int(ego["pai"]), ego["s"], ego["h"]]
         mib_view = [int(mobile), dflt_lt, dflt_hl]
         egoinp = {"ego": ego_view, "mib": {"mobile": mobile, "default_hop_limit": dflt_hl, "default_lifetime_s": dflt_lt}}
         sn = 0
+        if ei % 4 == 2:
+            # a station that has been up for a while: its sequence number is about to wrap (EN 302 636-4-1 8.3:
+            # SN(P) = (SN(P-1) + 1) mod (2^16 - 1)) while the packets below are sent
+            sn = router.sequence_number = 65534 - ctx.rng.randrange(1, 12)
+            ctx.count(1, "station_with_sequence_number_before_wrap")
         # a neighbour that is also the unicast destination
         peer = (0, 7, 0x0A0B0C0D0F00 + ei)
         peer_pv = (tst - 5, ego["lat"] // 2, ego["lon"] // 2)
@@ -453,7 +460,8 @@ def packet_cases(ctx, n_ego, payload_lens):
                 # lifetimes: grid points, the multiplier clamp windows (63 x base < request < next base unit) and anything
                 life = ctx.rng.choice([None, None, 50, 999, 1000, 1050, 15000, 600000, 3149, 3150, 3200, 3999, 4000,
                                        63000, 64000, 99999, 100000, 630000, 640000, 999999,
-                                       ctx.rng.randrange(50, 1_000_000), ctx.rng.randrange(50, 5000)])
+                                       ctx.rng.randrange(50, 1_000_000), ctx.rng.randrange(50, 5000),
+                                       0, 0, 1, 49])      # a request for 0 ms is a request, not 'use the default'
                 hl = ctx.rng.choice([0, 1, 2, 5, 255])
                 gn_payload = pack([(16, p1), (16, p2)]) + payload
                 tc = TrafficClass(scf=scf, channel_offload=off, tc_id=tcid)
@@ -478,9 +486,15 @@ def packet_cases(ctx, n_ego, payload_lens):
                     for hst in (0, 1, 2):
                         a, b = ctx.rng.choice([(1, 1), (100, 50), (500, 499), (1, 1)])
                         angle = ctx.rng.choice([0, 0, 45, 359, 90])
-                        if scf:
-                            continue  # store-carry-forward buffers are stubs in the implementation
+                        # SCF = 1 is sent like any packet while a neighbour exists (the peer); only the buffers for the
+                        # no-neighbour case are stubs in the implementation
                         area = [ego["lat"], ego["lon"], a, b, angle]
+                        far_area = False
+                        if hst == (ei + pl) % 3 and not scf and abs(ego["lat"]) < 890000000 and abs(ego["lon"]) < 1790000000:
+                            # the station is OUTSIDE the area: the source takes the non-area branch (greedy forwarding
+                            # towards the area; without SCF the packet goes out in any case)
+                            area = [ego["lat"] + 300000, ego["lon"] - 300000, a, b, angle]
+                            far_area = True
                         sn = (sn + 1) % 65535
                         ll.sent.clear()
                         call("geo", reqinp, btp.btp_data_request, BTPDataRequest(
@@ -489,12 +503,14 @@ def packet_cases(ctx, n_ego, payload_lens):
                         ref = pack(basic_fields(1, 1, ltc, x) + common_fields(btp_type, ht, hst, tcb, int(mobile), len(gn_payload), x)
                                    + [(16, sn), (16, 0)] + lpv_fields(me, *ego_view[3:])
                                    + [(32, area[0]), (32, area[1]), (16, a), (16, b), (16, angle), (16, 0)]) + gn_payload
-                        expect("gbc" if ht == 4 else "gac", dict(reqinp, op="geo", ht=ht, hst=hst, area=area, sn=sn),
+                        expect(("gbc" if ht == 4 else "gac") + ("_scf" if scf else "") + ("_station_outside_area" if far_area else ""),
+                               dict(reqinp, op="geo", ht=ht, hst=hst, area=area, sn=sn),
                                ll.sent[0] if ll.sent else None, ref, 32,
                                [int(mobile), dflt_lt, dflt_hl, lifem, hl, btp_type, ht, hst, int(scf), int(off), tcid, sn]
                                + ego_view + area + list(gn_payload))
-                # GUC to the known neighbour
-                if not scf:
+                # GUC to the known neighbour (with SCF it is sent when the neighbour is closer to the destination than
+                # the station itself: it is the destination; not so when both are at the same place)
+                if not scf or (peer_pv[1], peer_pv[2]) != (ego["lat"], ego["lon"]):
                     sn = (sn + 1) % 65535
                     ll.sent.clear()
                     call("guc", reqinp, btp.btp_data_request, BTPDataRequest(
@@ -503,7 +519,7 @@ def packet_cases(ctx, n_ego, payload_lens):
                     de = list(peer) + list(peer_pv)
                     ref = pack(basic_fields(1, 1, ltc, x) + common_fields(btp_type, 2, 0, tcb, int(mobile), len(gn_payload), x)
                                + [(16, sn), (16, 0)] + lpv_fields(me, *ego_view[3:]) + spv_fields(peer, *peer_pv)) + gn_payload
-                    expect("guc", dict(reqinp, op="guc", de=de, sn=sn), ll.sent[0] if ll.sent else None, ref, 33,
+                    expect("guc" + ("_scf" if scf else ""), dict(reqinp, op="guc", de=de, sn=sn), ll.sent[0] if ll.sent else None, ref, 33,
                            [int(mobile), dflt_lt, dflt_hl, lifem, hl, btp_type, int(scf), int(off), tcid, sn]
                            + ego_view + de + list(gn_payload))
         # LS request (GUC to an unknown station) and LS reply (LS request for our address arrives)
@@ -540,11 +556,61 @@ def packet_cases(ctx, n_ego, payload_lens):
             ("fwd_lsreq", stack.ls_request_bytes(far, 14, *fpv, sought=other, rhl=3, mhl=10)),
             ("fwd_lsrep", stack.ls_reply_bytes(far, 15, *fpv, de=(other, 5, -7, 9), rhl=3, mhl=10)),
         ]
+        # the same five with every field away from the defaults of the reference builders: source address with the M bit
+        # and another station type, position accuracy 0, negative / extreme speed, heading, a stationary source (flags 0),
+        # SCF + channel offload + traffic class id, BTP-A, lifetime codes of the other bases, and the two ends of the
+        # hop-limit range; and GeoBroadcast / GeoAnycast towards an area the station is outside of (non-area branch)
+        far2 = (1, ctx.rng.randrange(13), 0x0A0B0C0DDB00 + ei)
+        var = dict(pai=0, s=ctx.rng.choice([-1, -16384, 16383, -300]), h=ctx.rng.choice([1, 3599, 65535]),
+                   mobile=ei % 2, tc=ctx.rng.choice([0x40, 0xC0, 0x7F, 0xFF, 0x81]))
+        ltc2 = ctx.rng.choice([(63 << 2) | 0, (1 << 2) | 2, (63 << 2) | 3, (20 << 2) | 0, 0])
+        var_noscf = dict(var, tc=var["tc"] & 0x7F)      # greedy forwarding may hold a packet with SCF back (buffer stub)
+        away = (ego["lat"] // 5 + 400000, ego["lon"] // 5 + 400000, 150, 100, 45)     # fpv (the sender) is outside too
+        fwd_in += [
+            ("fwd_tsb_varied", stack.tsb_bytes(far2, 65535, *fpv, payload=b"\x07\xd1\x00\x00hello", rhl=255, mhl=255, nh=1,
+                                               lt_code=ltc2, **var)),
+            ("fwd_gbc_varied", stack.gbc_bytes(far2, 0, *fpv, area=(ego["lat"], ego["lon"], 65535, 1, 359), payload=b"\x07\xd2\x00\x00x",
+                                               hst=2, rhl=2, mhl=255, nh=1, lt_code=ltc2, **var)),
+            ("fwd_guc_varied", stack.guc_bytes(far2, 1, *fpv, de=(other, 2 ** 32 - 1, -900000000, 1800000000), payload=b"", rhl=2, mhl=2,
+                                               nh=1, lt_code=ltc2, **var_noscf)),
+            ("fwd_lsreq_varied", stack.ls_request_bytes(far2, 2, *fpv, sought=(1, 12, 0xFFFFFFFFFFFE), rhl=128, mhl=200,
+                                                        lt_code=ltc2, **var)),
+            ("fwd_lsrep_varied", stack.ls_reply_bytes(far2, 3, *fpv, de=(other, 0, 900000000, -1800000000), rhl=2, mhl=2,
+                                                      lt_code=ltc2, **var)),
+        ]
+        if abs(away[0]) < 900000000 and abs(away[1]) < 1800000000:
+            fwd_in += [
+                ("fwd_gbc_station_outside_area", stack.gbc_bytes(far, 16, *fpv, area=away, payload=b"\x07\xd2\x00\x00o", hst=1, rhl=3, mhl=3)),
+                ("fwd_gac_station_outside_area", stack.gbc_bytes(far2, 4, *fpv, area=away, payload=b"\x07\xd2\x00\x00a", ht=3, hst=0,
+                                                                 rhl=9, mhl=10, lt_code=ltc2, **var_noscf)),
+            ]
         for kind, pkt in fwd_in:
             ll.sent.clear()
             call(kind, dict(egoinp, received=pkt.hex()), router.gn_data_indicate, pkt)
             ref = pkt[:3] + bytes([pkt[3] - 1]) + pkt[4:]
             expect(kind, dict(egoinp, op="forward", received=pkt.hex()), ll.sent[0] if ll.sent else None, ref, 36,
+                   [pkt[3] - 1] + list(pkt))
+        # contention-based forwarding: the copy that leaves when the timer expires is the received packet with RHL - 1
+        llc = CaptureLL()
+        rc = make_router(llc, local_mid=my_mid, default_hop_limit=dflt_hl, st=st, mib_kw=dict(
+            itsGnIsMobile=GnIsMobile.MOBILE if mobile else GnIsMobile.STATIONARY,
+            itsGnAreaForwardingAlgorithm=AreaForwardingAlgorithm.CBF))
+        set_ego(rc, ego["lat"], ego["lon"], pai=ego["pai"], s=ego["s"], h=ego["h"], tst=tst)
+        call("peer_beacon", egoinp, rc.gn_data_indicate, stack.beacon_bytes(peer, peer_pv[0], peer_pv[1], peer_pv[2]))
+        for kind, pkt in (("fwd_gbc_cbf", stack.gbc_bytes(far, 31, *fpv, area=(ego["lat"], ego["lon"], 300, 200, 0),
+                                                          payload=b"\x07\xd2\x00\x00c", rhl=5, mhl=7)),
+                          ("fwd_gbc_cbf_varied", stack.gbc_bytes(far2, 32, *fpv, area=(ego["lat"], ego["lon"], 20, 65535, 90),
+                                                                 payload=b"", hst=1, rhl=255, mhl=255, nh=1, lt_code=ltc2, **var))):
+            llc.sent.clear()
+            call(kind, dict(egoinp, received=pkt.hex()), rc.gn_data_indicate, pkt)
+            at_once = list(llc.sent)
+            for t in list(rc._cbf_buffer.values()):
+                t.fire()
+            ref = pkt[:3] + bytes([pkt[3] - 1]) + pkt[4:]
+            if at_once:
+                ctx.property_failure("pkt_" + kind, dict(egoinp, op="forward_cbf", received=pkt.hex()),
+                                     "contention-based forwarding re-broadcast before the timer expired", [], [p.hex() for p in at_once])
+            expect(kind, dict(egoinp, op="forward_cbf", received=pkt.hex()), llc.sent[0] if llc.sent else None, ref, 36,
                    [pkt[3] - 1] + list(pkt))
         # GeoUnicast forwarded towards a NEIGHBOUR (EN 302 636-4-1 10.3.8.3 step 8): the DE PV of the forwarded packet is
         # refreshed from the location table when that is strictly newer, otherwise the packet is copied; RHL - 1 either way
@@ -561,6 +627,48 @@ def packet_cases(ctx, n_ego, payload_lens):
             expect("fwd_guc_de_" + tag, dict(egoinp, op="forward_to_neighbour", de_pv_in_packet=tag, received=pkt.hex(),
                                              loct_pv=list(peer_pv)), ll.sent[0] if ll.sent else None, ref,
                    None if tag == "older" else 36, [pkt[3] - 1] + list(pkt))
+        # the same for an LS reply forwarded towards the neighbour (10.3.7.2: forwarded like a GeoUnicast packet)
+        for fsn, (tag, de_tst) in enumerate((("older", peer_pv[0] - 1), ("same", peer_pv[0]), ("newer", peer_pv[0] + 1000)), 41):
+            pkt = stack.ls_reply_bytes(far, fsn, *fpv, de=(peer, de_tst, -123456, 654321), rhl=2, mhl=9)
+            ll.sent.clear()
+            call("fwd_lsrep_neighbour", dict(egoinp, received=pkt.hex()), router.gn_data_indicate, pkt)
+            if tag == "older":
+                ref = stack.ls_reply_bytes(far, fsn, *fpv, de=(peer,) + tuple(peer_pv), rhl=1, mhl=9)
+            else:
+                ref = pkt[:3] + bytes([pkt[3] - 1]) + pkt[4:]
+            expect("fwd_lsrep_de_" + tag, dict(egoinp, op="forward_to_neighbour", de_pv_in_packet=tag, received=pkt.hex(),
+                                               loct_pv=list(peer_pv)), ll.sent[0] if ll.sent else None, ref,
+                   None if tag == "older" else 36, [pkt[3] - 1] + list(pkt))
+        # LS retransmission (10.3.7.1.3): when the timer expires the LS request goes out again, with the next sequence number
+        for t in list(router._ls_timers.values()):
+            ll.sent.clear()
+            t.fire()
+            sn = (sn + 1) % 65535
+            ref = pack(basic_fields(1, 1, ltd, dflt_hl) + common_fields(0, 6, 0, 0, int(mobile), 0, dflt_hl)
+                       + [(16, sn), (16, 0)] + lpv_fields(me, *ego_view[3:]) + gn_addr_fields(*unknown))
+            expect("lsreq_retransmission", dict(egoinp, op="ls_retransmit", sought=list(unknown), sn=sn),
+                   ll.sent[0] if ll.sent else None, ref, 34, mib_view + [sn] + ego_view + list(unknown))
+        # the ego position vector as the router derives it from a position fix (gpsd TPV report): degrees -> 1/10 micro
+        # degree, m/s -> 0.01 m/s, degrees -> 0.1 degree, UTC -> ITS milliseconds mod 2^32; it then appears in the beacon
+        for tpv in tpv_values(ctx, ei):
+            call("ego_from_tpv", dict(tpv=tpv), router.refresh_ego_position_vector, tpv)
+            ll.sent.clear()
+            call("ego_from_tpv", dict(tpv=tpv), router.gn_data_request_beacon)
+            ctx.count(1, "ego_from_tpv")
+            if not ll.sent or len(ll.sent[0]) != 36:
+                ctx.property_failure("ego_from_tpv", dict(tpv=tpv), "no beacon after the position fix", 36, ll.sent and len(ll.sent[0]))
+                continue
+            b = ll.sent[0][12:]
+            got = [int.from_bytes(b[8:12], "big"), int.from_bytes(b[12:16], "big", signed=True), int.from_bytes(b[16:20], "big", signed=True),
+                   stack_signed15(int.from_bytes(b[20:22], "big") & 0x7FFF), int.from_bytes(b[22:24], "big")]
+            want = tpv_expect(tpv)
+            okv = ((got[0] - want[0]) % 2 ** 32 <= 0 or (want[0] - got[0]) % 2 ** 32 < 1000) and \
+                all(abs(g - w) <= 1 for g, w in zip(got[1:], want[1:])) and b[0:8] == pack(gn_addr_fields(*me))
+            if not okv:
+                ctx.property_failure("ego_from_tpv", dict(tpv=tpv), "the ego position vector after a position fix is not the fix in "
+                                     "wire units (timestamp within the second of the fix, +-1 unit elsewhere)",
+                                     dict(zip(("tst", "lat", "lon", "s", "h"), want)), dict(zip(("tst", "lat", "lon", "s", "h"), got)))
+            ctx.nontriv(("tpv", tuple(sorted(tpv.items()))))
     if ctx.model.available and reqs:
         for (kind, inp, got), r in zip(meta, ctx.model.batch(reqs)):
             if bytes(r) != got:
@@ -568,6 +676,35 @@ def packet_cases(ctx, n_ego, payload_lens):
     if meta:
         k, i, g = meta[len(meta) // 3]
         ctx.sample({"packet": k, "octets": g.hex()[:120]})
+
+
+def stack_signed15(v: int) -> int:
+    return v - 2 ** 15 if v >= 2 ** 14 else v
+
+
+def tpv_values(ctx, ei):
+    from datetime import datetime, timezone
+    pts = [(46.498293369, 7.567411672), (-33.8688197, 151.2092955), (-0.00000005, -0.00000015), (89.9999999, -179.9999999),
+           (-89.5, 179.9999999), (0.0, 0.0)]
+    out = []
+    for k in range(2):
+        lat, lon = pts[(2 * ei + k) % len(pts)] if ctx.rng.random() < 0.7 else (ctx.rng.uniform(-90, 90), ctx.rng.uniform(-180, 180))
+        t = 1_700_000_000 + ctx.rng.randrange(0, 10 ** 8) + ctx.rng.choice([0.0, 0.283, 0.999, 0.5])
+        iso = datetime.fromtimestamp(t, tz=timezone.utc).strftime("%Y-%m-%dT%H:%M:%S.%f")[:-3] + "Z"
+        out.append({"class": "TPV", "time": iso, "lat": lat, "lon": lon, "mode": 3,
+                    "speed": ctx.rng.choice([0.0, 0.091, 13.89, 163.83, 55.555]),
+                    "track": ctx.rng.choice([0.0, 10.3788, 359.94, 180.0, 90.05])})
+    return out
+
+
+def tpv_expect(tpv):
+    from datetime import datetime
+    from fractions import Fraction
+    t = datetime.strptime(tpv["time"], "%Y-%m-%dT%H:%M:%S.%f%z").timestamp()
+    t_ms = int(Fraction(t) * 1000) - stack.ITS_EPOCH_MS + stack.LEAP_MS
+    trunc = lambda x: int(x)       # towards zero  # noqa: E731
+    return [t_ms % 2 ** 32, trunc(Fraction(tpv["lat"]) * 10 ** 7), trunc(Fraction(tpv["lon"]) * 10 ** 7),
+            trunc(Fraction(tpv["speed"]) * 100), trunc(Fraction(tpv["track"]) * 10)]
 
 
 def lt_code_of(ms: int) -> int:
@@ -602,7 +739,7 @@ def run(ctx):
     codec_cases(ctx, K, exhaustive)
     decoder_stream(ctx, K, 400 if ctx.tier == "quick" else 5000)
     if ctx.tier == "quick":
-        packet_cases(ctx, 9, [0, 1, 37])
+        packet_cases(ctx, 9, [0, 1, 37, 300])
     else:
         packet_cases(ctx, 60, [0, 1, 2, 255, 256, 1000, 1394])
     ctx.exhaustive = False
